@@ -43,8 +43,9 @@ def glomit_ref(self, target, scope):
 
 
 def add_op_ref(self, opname, args, callback):
-    """a NEW spec of the same type whose stack is a NEW list: the new entry followed by the old entries; self is not touched"""
-    return type(self)(subspec=self.subspec, _iter_stack=[(opname, args, callback)] + self._iter_stack)
+    """a NEW spec of the same type whose stack is a NEW list: the new entry followed by the old entries; self is not touched.  The new spec is
+    the old pipeline plus one stage, so it keeps reading the source the same way: same sub-spec AND same sentinel ("honouring ... the sentinel")"""
+    return type(self)(subspec=self.subspec, _iter_stack=[(opname, args, callback)] + self._iter_stack, sentinel=self.sentinel)
 
 
 # -- every stage is literally the corresponding itertools / boltons call (so the pipeline inherits its laziness) --------------------
